@@ -345,7 +345,9 @@ def check_numeric(ctx, prefix, cases):
     for k in failing:
         bad.append(cases[bool_idx[k]])
     # float-valued results: evaluated by Coq to a closed expression, ln/exp evaluated here
-    for s0 in range(0, len(ser_terms), 300):
+    from concurrent.futures import ThreadPoolExecutor
+
+    def one(s0):
         chunk = ser_terms[s0:s0 + 300]
         text = HEADER + "Definition out : list (list Z) := [\n" + ";\n".join(chunk) + "].\nEval vm_compute in out.\n"
         rc, out = ctx.coq_run(text, "tie_%s_s%d" % (prefix, s0))
@@ -354,6 +356,11 @@ def check_numeric(ctx, prefix, cases):
         codes = parse_nested(out)
         if len(codes) != len(chunk):
             raise RuntimeError("coq returned %d results for %d cases" % (len(codes), len(chunk)))
+        return s0, codes
+
+    with ThreadPoolExecutor(max_workers=6) as ex:
+        results = list(ex.map(one, range(0, len(ser_terms), 300)))
+    for s0, codes in results:
         for k, code in enumerate(codes):
             c = cases[ser_idx[s0 + k]]
             mo = model_outcome(code)
@@ -635,28 +642,8 @@ def run(ctx):
     ctx.log("translated; building proof cone")
     ok = ctx.prove("C12/Props.v")
     ctx.log("Props.v:", "ok" if ok else "BROKEN")
-    # ---- defaults (property-level judge first: decides which of PropsIsOne.v / Findings.v must hold)
-    defect = judge_defaults(ctx)
-    with open(os.path.join(vf.THEORIES, "C12", "Findings.v")) as f:
-        findings_src = f.read()
-    if ok:
-        if defect:
-            # the obligations of PropsIsOne.v are refuted by a concrete input (reported above);
-            # they are counted as not discharged and the refutation witness must check on the model
-            with open(os.path.join(vf.THEORIES, "C12", "PropsIsOne.v")) as f:
-                n = len(re.findall(r"^\s*Theorem\s", vf.strip_coq_comments(f.read()), re.M))
-            ctx.cov["obligations"] += n
-            rc, out = ctx.coq_run(findings_src, "Findings_isone")
-            ctx.cov["findings_witness_is_one"] = "checks" if rc == 0 else "does not check"
-            if rc:
-                ctx.broken.append("correspondence:implementation shows the inherited is_one defect but the generated model does not (C12/Findings.v fails)")
-                ctx.notes.append(out[-1500:])
-        else:
-            ctx.prove("C12/PropsIsOne.v")
-            rc, out = ctx.coq_run(findings_src, "Findings_isone")
-            ctx.cov["findings_witness_is_one"] = "known finding no longer reproduces" if rc else "STILL checks although the implementation behaves"
-            if rc == 0:
-                ctx.broken.append("correspondence:C12/Findings.v still proves the is_one defect that the implementation does not show")
+    # ---- documented defaults on the real classes (and on a minimal subclass)
+    judge_defaults(ctx)
     if not ok:
         return
     # ---- float-level tie
@@ -664,7 +651,7 @@ def run(ctx):
     ug, lg = unit_grid(ctx.rng, extra), log_grid(ctx.rng, extra)
     for cls, prefix, eg, ig in ((SemiringProbability, "prob", ug, ug), (SemiringLogProbability, "log", ug, lg)):
         ctx.log("float-level tie of", prefix)
-        cases = tie_numeric(ctx, cls, prefix, eg, ig, ctx.n(150, 6000), ctx.n(60, 1500), ctx.n(14, 30))
+        cases = tie_numeric(ctx, cls, prefix, eg, ig, ctx.n(120, 6000), ctx.n(50, 1500), ctx.n(12, 30))
         try:
             bad, skipped = check_numeric(ctx, prefix, cases)
         except RuntimeError as e:
